@@ -54,6 +54,12 @@ class SimTerminal:
         self.mbx_resp_latency = lambda: 0
         self.mbx_wait = 0
         self.mbx_out_full = False
+        # polls of a sync-manager status until the terminal's application
+        # fetches a mail the master wrote (0: at once); while the mail waits
+        # the mailbox is full and further writes into it are refused
+        self.mbx_fetch_latency = lambda: 0
+        self.mbx_out_pending = None
+        self.mbx_fetch_wait = 0
         self.mbx_writes = []        # raw messages written by the master
         self.mbx_reads = []
         self.sm_update()
@@ -105,6 +111,7 @@ class SimTerminal:
         for i in range(4):
             sa = 0x805 + 8 * i
             if addr <= sa < addr + n:
+                self.mbx_fetch_poll()
                 off, size, ctrl = self.sm(i)
                 mode = ctrl & 0xf
                 st = 0
@@ -126,8 +133,25 @@ class SimTerminal:
                 self.mbx_in_loaded = False
         return bytes(out)
 
+    def mbx_fetch_poll(self):
+        if self.mbx_out_full:
+            self.mbx_fetch_wait -= 1
+            if self.mbx_fetch_wait <= 0:
+                self.mbx_out_full = False
+                msg, self.mbx_out_pending = self.mbx_out_pending, None
+                self.events.append(("mbx_fetched",))
+                self.mbx_deliver(msg)
+
     def write(self, addr, data):
+        """returns False when the write is refused (no working counter)"""
         n = len(data)
+        if self.mbx_out_full:
+            for i in range(4):
+                off, size, ctrl = self.sm(i)
+                if ctrl & 0xf == 6 and size and addr < off + size and \
+                        off < addr + n:
+                    self.events.append(("mbx_write_refused", addr))
+                    return False
         self.events.append(("write", addr, bytes(data)))
         self.mem[addr:addr + n] = data
         if addr <= 0x10 < addr + n:
@@ -157,7 +181,13 @@ class SimTerminal:
                 msg = bytes(self.mem[off:off + size])
                 self.mbx_writes.append(msg)
                 self.events.append(("mbx_write", msg))
-                self.mbx_deliver(msg)
+                lat = self.mbx_fetch_latency()
+                if lat <= 0:
+                    self.mbx_deliver(msg)
+                else:
+                    self.mbx_out_full = True
+                    self.mbx_out_pending = msg
+                    self.mbx_fetch_wait = lat
 
     # -- AL state machine ------------------------------------------------
     def al_request(self, v):
@@ -551,8 +581,8 @@ class Bus:
             data[:] = t.read(ado, len(data))
             wkc += 1
         if kind in (1, 2):
-            t.write(ado, bytes(data) if kind == 1 else bytes(data))
-            wkc += 1 if kind == 1 else 2
+            if t.write(ado, bytes(data)) is not False:
+                wkc += 1 if kind == 1 else 2
         return wkc
 
 
